@@ -147,8 +147,13 @@ type branchKey struct {
 	branch uint32
 }
 
-func (rs *runState) checkC09(pre map[waddrmgr.KeyScope]acctCounts, sec []issueRec) {
+func (rs *runState) checkC09(pre map[waddrmgr.KeyScope]acctCounts, sec []issueRec, failedCalls int) {
 	x := rs.x
+	// A call that fails after its database transaction committed (e.g. a send
+	// whose broadcast is rejected) has consumed an index legitimately without
+	// handing the address to anybody: each failed call of the section may
+	// account for at most one unobtained index.
+	allowance := failedCalls
 	// (1) every successful issuing call obtained an address no other call obtained
 	seen := map[string]issueRec{}
 	for _, is := range rs.issues {
@@ -188,6 +193,11 @@ func (rs *runState) checkC09(pre map[waddrmgr.KeyScope]acctCounts, sec []issueRe
 				same++
 			}
 			for i := lo; i < hi; i++ {
+				if !got[i] && allowance > 0 {
+					allowance--
+					x.env.Count("probe.index-consumed-by-failed-call")
+					continue
+				}
 				if !got[i] {
 					x.fail("index-gap", "scope %d branch %d: index %d was consumed (next index went %d -> %d) but no successful call obtained it", s.Purpose, br, i, lo, hi)
 					return
@@ -229,7 +239,9 @@ func (rs *runState) checkC09(pre map[waddrmgr.KeyScope]acctCounts, sec []issueRe
 			}
 			ops = append(ops, porcupine.Operation{ClientId: is.task, Input: struct{}{}, Call: int64(is.call), Output: is.index, Return: int64(is.ret)})
 		}
-		if !okHist || len(ops) == 0 || len(ops) > 24 {
+		// with failed calls in the section the counter model is not exact (a
+		// failed call may have consumed an index): no linearizability verdict
+		if !okHist || len(ops) == 0 || len(ops) > 24 || failedCalls > 0 {
 			continue
 		}
 		sort.SliceStable(ops, func(i, j int) bool { return ops[i].Call < ops[j].Call })
